@@ -183,7 +183,10 @@ func (w *World) AuditStore(prop string, format bool, imported bool) *Violation {
 			}
 			if format && !imported {
 				wantL, wantR := tn.Left.Nonce, tn.Right.Nonce
-				if d.LNonce != wantL || d.RNonce != wantR {
+				// (v,0) is the re-keyed form of the root (v,1) of a deleted version:
+				// a link written after the re-keying may name it directly
+				okN := func(got, want uint32) bool { return got == want || (got == 0 && want == 1) }
+				if !okN(d.LNonce, wantL) || !okN(d.RNonce, wantR) {
 					return w.viol(prop, prop+".format", "field-mismatch", cls, fmt.Sprintf("node (ver %d key %x): child nonces (%d,%d) want pre-order numbers (%d,%d)", id.Ver, d.Key, d.LNonce, d.RNonce, wantL, wantR))
 				}
 			}
